@@ -17,7 +17,7 @@ RULE = (
 TRUSTED = ["T1 correspondence harness (corr_config.py)", "CPython fnmatch modelled by hand (Model/Glob.lean)"]
 ASSUMES = ["hook-level routing of MCP tool names is covered by C06/C12 (Model/Hook.lean)"]
 CWD = "/tmp/probe"
-TOOLS = ["mcp__github__get_issue", "mcp__github__create_pr", "mcp__fs__read_file", "mcp__x__y", "mcp__a__b", "mcp__"]
+TOOLS = ["mcp__github__get_issue", "mcp__github__create_pr", "mcp__fs__read_file", "mcp__x__y", "mcp__a__b", "mcp__", "mcp__git status", "mcp__ls"]
 
 
 def correspondence(ctx):
@@ -38,6 +38,11 @@ def mixed_text(r):
             lines.append(r.pick(["allow-mcp", "ask-mcp", "deny-mcp"]) + " " + r.pick(["mcp__github__*", "mcp__*", "mcp__fs__read_file", "mcp__[ax]__?", "*", "mcp__github__create_*"]) + r.pick(["", ' "m"']))
         elif k < 0.55:
             lines.append("after-mcp " + r.pick(["mcp__github__*", "*"]) + r.pick(["", ' "posted"']))
+        elif k < 0.62:
+            # a *shell* rule whose pattern looks like an MCP tool name (and the other way round)
+            lines.append(r.pick(["allow", "ask", "deny"]) + " " + r.pick(["mcp__github__*", "mcp__fs__read_file", "mcp__*", "mcp__github__get_issue x"]) + r.pick(["", ' "shell family"']))
+        elif k < 0.66:
+            lines.append(r.pick(["allow-mcp", "deny-mcp"]) + " " + r.pick(["git *", "ls", "rm*", "*"]))
         elif k < 0.8:
             lines.append(CC.gen_rules_text(r, k=1).strip())
         elif k < 0.9:
@@ -82,7 +87,7 @@ def search(ctx):
         if text not in seen:
             seen.add(text)
             stats["distinct"] += 1
-        for ws in (r.pick(CC.CMD_WORDS) for _ in range(3)):
+        for ws in [r.pick(CC.CMD_WORDS) for _ in range(3)] + [r.pick([["mcp__fs__read_file"], ["mcp__github__get_issue", "x"], ["mcp__x"]])]:
             if any(" " in w or "*" in w for w in ws):
                 continue
             cmd = " ".join(ws)
